@@ -121,7 +121,8 @@ func builderParam(info *types.Info, fd *ast.FuncDecl) types.Object {
 // isBuilder reports whether e has type *strings.Builder.
 func isBuilder(info *types.Info, e ast.Expr) bool {
 	t := info.TypeOf(e)
-	return t != nil && TypeStr(t) == "*strings.Builder"
+	// a builder held by value is used through its address (sb.WriteString on `var sb strings.Builder`)
+	return t != nil && (TypeStr(t) == "*strings.Builder" || TypeStr(t) == "strings.Builder")
 }
 
 // emissionBuilder returns the builder expression a call writes to (receiver or argument), or nil.
